@@ -355,6 +355,16 @@ class SvCtxWriterMixedKeys(_FloatOp):
         return FloatDataType(data.data + 0.0)
 
 
+class SvAppendInPlace(_FloatOp):
+    """Receives a list as a parameter (typically resolved from the context) and appends a SET to it in place: the list object
+    the orchestrator recorded as this node's parameter now holds a value JSON cannot encode."""
+
+    def _process_logic(self, data, acc: list):
+        _invoke("SvAppendInPlace", {"acc": list(acc)}, data)
+        acc.append({1, 2})
+        return FloatDataType(data.data + 1.0)
+
+
 class SvCtxWriterFlag(_FloatOp):
     """Writes the boolean True under the declared key ``flag`` (a value that compares equal to the float 1.0)."""
 
@@ -579,7 +589,7 @@ class SvBadCtxProc(ContextProcessor):
 
 LEAF_NAMES = [
     "SvSource", "SvSourceDefault", "SvPayloadSource", "SvAdd", "SvAddDefault", "SvMul",
-    "SvMulDefault", "SvAffine", "SvClip", "SvPoly", "SvJitter", "SvSlow", "SvCaseOp", "SvScaleInPlace", "SvToStream", "SvStreamSum", "SvNeedsSubFloat", "SvRaiseOdd", "SvProbeNone", "SvWrongOutput", "SvWriteThenFail", "SvCtxWriterOpaque", "SvCtxWriterArray", "SvCtxWriterMixedKeys", "SvCtxWriterFlag", "SvCtxWriterA", "SvCtxWriterB", "SvBadWriter", "SvToText",
+    "SvMulDefault", "SvAffine", "SvClip", "SvPoly", "SvJitter", "SvSlow", "SvCaseOp", "SvScaleInPlace", "SvToStream", "SvStreamSum", "SvNeedsSubFloat", "SvRaiseOdd", "SvProbeNone", "SvWrongOutput", "SvWriteThenFail", "SvCtxWriterOpaque", "SvCtxWriterArray", "SvCtxWriterMixedKeys", "SvAppendInPlace", "SvCtxWriterFlag", "SvCtxWriterA", "SvCtxWriterB", "SvBadWriter", "SvToText",
     "SvTextLen", "SvBumpLast", "SvCollSum", "SvProbe", "SvProbeParam", "SvProbeDefault", "SvFileSink",
     "SvNullSink", "SvPayloadSink", "SvCtxCombine", "SvBadCtxProc",
 ]
